@@ -178,6 +178,21 @@ func (x *c04Gen) goal(depth int) *c04Goal {
 		}
 		return &c04Goal{Op: "findall", V: 1 + g.Choose(4), Args: []*c04Goal{x.goal(depth - 1)}}
 	case 8:
+		switch g.Weighted(8, 2, 2) {
+		case 1:
+			// a cut literally in the goal of catch/3 is local to it: catch((A, !, B), Catcher, Recovery)
+			return &c04Goal{Op: "catch", N: 1, T: x.catcher(), Args: []*c04Goal{x.goal(depth - 1), x.goal(depth - 1), x.goal(depth - 1)}}
+		case 2:
+			// a goal that call/1 itself rejects: unbound, a number, a conjunction with a number in it. The error is raised
+			// inside the catch/3 and is this frame's to handle
+			kind := []string{"var", "int", "conj-int"}[g.Choose(3)]
+			v := x.v()
+			if x.inBody {
+				v = "L"
+			}
+			x.nextI++
+			return &c04Goal{Op: "catch", N: 2, Kind: kind, V: int(v[len(v)-1] - '0'), I: x.nextI, T: x.catcher(), Args: []*c04Goal{{Op: "true"}, x.goal(depth - 1)}, U: map[bool]int{true: 1, false: 0}[x.inBody]}
+		}
 		return &c04Goal{Op: "catch", T: x.catcher(), Args: []*c04Goal{x.goal(depth - 1), x.goal(depth - 1)}}
 	}
 	if x.minU < x.nPreds {
@@ -279,6 +294,13 @@ func c04Text(g *c04Goal) string {
 	case "findall":
 		return fmt.Sprintf("findall(x, %s, V%d)", c04Text(g.Args[0]), g.V)
 	case "catch":
+		switch g.N {
+		case 1:
+			return "catch((" + c04Text(g.Args[0]) + ", !, " + c04Text(g.Args[2]) + "), " + g.T + ", " + c04Text(g.Args[1]) + ")"
+		case 2:
+			goal := map[string]string{"var": c04BadVar(g), "int": "1", "conj-int": fmt.Sprintf("(pt(%d), 1)", g.I)}[g.Kind]
+			return "catch(" + goal + ", " + g.T + ", " + c04Text(g.Args[1]) + ")"
+		}
 		return "catch(" + c04Text(g.Args[0]) + ", " + g.T + ", " + c04Text(g.Args[1]) + ")"
 	case "throw":
 		return "throw(" + g.T + ")"
@@ -511,4 +533,12 @@ func tail(s []string, n int) []string {
 		return s[:n]
 	}
 	return s
+}
+
+// c04BadVar names the variable used as the goal of a catch/3 (a query variable, or the local variable L in a clause body).
+func c04BadVar(g *c04Goal) string {
+	if g.U == 1 {
+		return "L"
+	}
+	return fmt.Sprintf("V%d", g.V)
 }
